@@ -7,10 +7,11 @@ import Model.Lines
 import Model.HelpersDriver
 import Model.CliDriver
 import Model.IterDriver
+import Model.Sequence
 
 namespace Model
 
-def handlers : List (String → Req → Option String) := [handleCore, Lines.handle, Helpers.handle, CliDriver.handle, Iter.handle]
+def handlers : List (String → Req → Option String) := [handleCore, Lines.handle, Helpers.handle, CliDriver.handle, Iter.handle, handleSequence]
 
 def handle (line : String) : String :=
   let (cmd, r) := parseReq line
